@@ -149,11 +149,15 @@ fn arrow_type(inp: &Input) -> DataType {
         (K_F32, _) => DataType::Float32,
         (K_F64, _) => DataType::Float64,
         (K_F16, _) => DataType::Float16,
+        (K_D32, 1) => DataType::Decimal32(inp.prec as u8, if inp.prec > 2 { 2 } else { 0 }),
+        (K_D32, 2) | (K_D64, 1) => DataType::Decimal64(inp.prec as u8, if inp.prec > 2 { 2 } else { 0 }),
         (K_D32, _) | (K_D64, _) => DataType::Decimal128(inp.prec as u8, if inp.prec > 2 { 2 } else { 0 }),
         (K_DF, 1) => DataType::Decimal256(inp.prec as u8, 2),
         (K_DF, _) => DataType::Decimal128(inp.prec as u8, 2),
         (K_UTF8, 1) => DataType::LargeUtf8,
         (K_UTF8, 2) => DataType::Utf8View,
+        (K_UTF8, 3) => DataType::Dictionary(Box::new(DataType::Int32), Box::new(DataType::Utf8)),
+        (K_BIN, 3) => DataType::Dictionary(Box::new(DataType::Int8), Box::new(DataType::Binary)),
         (K_UTF8, _) => DataType::Utf8,
         (K_BIN, 1) => DataType::LargeBinary,
         (K_BIN, 2) => DataType::BinaryView,
@@ -198,6 +202,44 @@ fn build_array(inp: &Input, lo: usize, hi: usize, garbage: u64) -> ArrayRef {
         DataType::Decimal128(p, s) => {
             let vals: Vec<i128> = (0..n).map(|i| if valid[i] { num(i).to_i128().unwrap() } else { (garbage % 97) as i128 }).collect();
             Arc::new(Decimal128Array::new(ScalarBuffer::from(vals), nulls).with_precision_and_scale(p, s).unwrap())
+        }
+        DataType::Decimal32(p, s) => {
+            let vals: Vec<i32> = (0..n).map(|i| if valid[i] { num(i).to_i32().unwrap() } else { (garbage % 97) as i32 }).collect();
+            Arc::new(Decimal32Array::new(ScalarBuffer::from(vals), nulls).with_precision_and_scale(p, s).unwrap())
+        }
+        DataType::Decimal64(p, s) => {
+            let vals: Vec<i64> = (0..n).map(|i| if valid[i] { num(i).to_i64().unwrap() } else { (garbage % 97) as i64 }).collect();
+            Arc::new(Decimal64Array::new(ScalarBuffer::from(vals), nulls).with_precision_and_scale(p, s).unwrap())
+        }
+        DataType::Dictionary(_, vt) => {
+            // dictionary with unused entries below and above every referenced value, keys under nulls point at them
+            let mut dict: Vec<Vec<u8>> = vec![vec![]];
+            let mut keys: Vec<i32> = vec![];
+            for i in 0..n {
+                if valid[i] {
+                    let v = &inp.blobs[lo + i];
+                    let k = match dict.iter().position(|d| d == v) { Some(k) => k, None => { dict.push(v.clone()); dict.len() - 1 } };
+                    keys.push(k as i32);
+                } else { keys.push(0); }
+                if dict.len() > 100 { break; }
+            }
+            if keys.len() < n || dict.len() > 100 {
+                // too many distinct values for an Int8 key: fall back to the plain array of the value type
+                let mut plain = inp.clone(); plain.variant = 0;
+                return build_array(&plain, lo, hi, garbage);
+            }
+            let top = if *vt == DataType::Utf8 { "\u{10FFFF}\u{10FFFF}\u{10FFFF}\u{10FFFF}\u{10FFFF}zzzzzzzzzzzz".as_bytes().to_vec() } else { vec![0xFFu8; 40] };
+            dict.push(top);
+            let last = (dict.len() - 1) as i32;
+            for i in 0..n { if !valid[i] && (garbage + i as u64) % 2 == 0 { keys[i] = last; } }
+            if *vt == DataType::Utf8 {
+                let values = StringArray::from_iter_values(dict.iter().map(|d| std::str::from_utf8(d).unwrap()));
+                Arc::new(DictionaryArray::<Int32Type>::try_new(Int32Array::new(ScalarBuffer::from(keys), nulls), Arc::new(values)).unwrap())
+            } else {
+                let values = BinaryArray::from_iter_values(dict.iter().map(|d| &d[..]));
+                let keys8: Vec<i8> = keys.iter().map(|k| *k as i8).collect();
+                Arc::new(DictionaryArray::<Int8Type>::try_new(Int8Array::new(ScalarBuffer::from(keys8), nulls), Arc::new(values)).unwrap())
+            }
         }
         DataType::Decimal256(p, s) => {
             let vals: Vec<i256> = (0..n).map(|i| if valid[i] { big_to_i256(num(i)) } else { i256::from_i128((garbage % 97) as i128) }).collect();
@@ -245,6 +287,10 @@ fn build_array(inp: &Input, lo: usize, hi: usize, garbage: u64) -> ArrayRef {
 
 /// (valid, numeric values, byte values) of an arrow array of the input's type, as logical rows.
 fn extract(inp: &Input, arr: &ArrayRef) -> (Vec<bool>, Vec<BigInt>, Vec<Vec<u8>>) {
+    if let DataType::Dictionary(_, vt) = arr.data_type() {
+        let plain = arrow_cast::cast(arr, vt).expect("dictionary cast");
+        return extract(inp, &plain);
+    }
     let n = arr.len();
     let valid: Vec<bool> = (0..n).map(|i| arr.is_valid(i)).collect();
     let mut nums = vec![];
@@ -269,6 +315,8 @@ fn extract(inp: &Input, arr: &ArrayRef) -> (Vec<bool>, Vec<BigInt>, Vec<Vec<u8>>
         DataType::Float32 => prim!(Float32Type, |v: f32| BigInt::from(v.to_bits())),
         DataType::Float64 => prim!(Float64Type, |v: f64| BigInt::from(v.to_bits())),
         DataType::Float16 => prim!(Float16Type, |v: f16| BigInt::from(v.to_bits())),
+        DataType::Decimal32(_, _) => prim!(Decimal32Type, BigInt::from),
+        DataType::Decimal64(_, _) => prim!(Decimal64Type, BigInt::from),
         DataType::Decimal128(_, _) => prim!(Decimal128Type, BigInt::from),
         DataType::Decimal256(_, _) => prim!(Decimal256Type, i256_to_big),
         DataType::Boolean => { let a = arr.as_boolean(); nums = (0..n).map(|i| BigInt::from((valid[i] && a.value(i)) as u8)).collect(); }
@@ -618,7 +666,8 @@ fn observe_conv(inp: &mut Input) -> Option<Args> {
     let rgs = meta.row_groups();
     let unsupported = |g: &mut Args| { g.push(vec![0.into()]); };
     let (mins, maxs) = match (conv.row_group_mins(rgs.iter()), conv.row_group_maxes(rgs.iter())) { (Ok(a), Ok(b)) => (a, b), _ => { unsupported(&mut g); return Some(g); } };
-    if mins.data_type() != schema.field(0).data_type() { unsupported(&mut g); return Some(g); }
+    let expect = match schema.field(0).data_type() { DataType::Dictionary(_, v) => v.as_ref().clone(), t => t.clone() };
+    if mins.data_type() != &expect { unsupported(&mut g); return Some(g); }
     let tri = |a: &BooleanArray| -> BigInt { if a.is_null(0) { (-1).into() } else { (a.value(0) as u8).into() } };
     let cnt = |a: &UInt64Array, i: usize| -> BigInt { if a.is_null(i) { (-1).into() } else { a.value(i).into() } };
     let nc = conv.row_group_null_counts(rgs.iter()).ok()?;
@@ -687,7 +736,7 @@ pub fn run(op: &str, a: &Args) -> Option<Args> {
         "c07.file" => {
             let mut inp = Input::from_groups(a);
             match observe_file(&mut inp) {
-                Some(obs) => { if obs[..] == a[N_IN..] { vec![g(1)] } else { vec![g(0)] } }
+                Some(obs) => { if a.len() > N_IN && obs[..] == a[N_IN..] { vec![g(1)] } else { vec![g(0)] } }
                 None => err(E_IO),
             }
         }
@@ -707,7 +756,8 @@ pub fn run(op: &str, a: &Args) -> Option<Args> {
         }
         "c07.sbbf" => {
             let r = sbbf_run(a);
-            vec![vec![r.nb0.into(), r.nb1.into(), (r.rt as u8).into()], gbytes(&r.b0), gbytes(&r.b1), gbools(r.pr0), gbools(r.pr1)]
+            let words = |b: &[u8]| -> Group { b.chunks_exact(4).map(|w| BigInt::from(u32::from_le_bytes(w.try_into().unwrap()))).collect() };
+            vec![vec![r.nb0.into(), r.nb1.into(), (r.rt as u8).into()], words(&r.b0), words(&r.b1), gbools(r.pr0), gbools(r.pr1)]
         }
         "c07.sbbf_check" => {
             let r = sbbf_run(a);
@@ -791,6 +841,15 @@ fn gen_nums(kind: usize, variant: usize, prec: usize, n: usize, r: &mut Rng) -> 
         }
         _ => vec![BigInt::from(0), BigInt::from(1)],
     };
+    // floats: pools in which a signed zero or a NaN is the extreme value
+    let pool: Vec<BigInt> = if matches!(kind, K_F32 | K_F64 | K_F16) && r.chance(1, 3) {
+        let (eb, mb): (u32, u32) = match kind { K_F32 => (8, 23), K_F64 => (11, 52), _ => (5, 10) };
+        let sign: u64 = 1u64 << (eb + mb);
+        let one: u64 = (((1u64 << eb) - 1) / 2) << mb;
+        let qnan: u64 = (((1u64 << eb) - 1) << mb) | (1u64 << (mb - 1));
+        let choices: [Vec<u64>; 5] = [vec![0, sign], vec![0, sign, one], vec![0, sign, sign | one], vec![0, sign, qnan, sign | qnan], vec![0, sign, 0, sign, 1, sign | 1]];
+        r.pick(&choices).iter().map(|v| BigInt::from(*v)).collect()
+    } else { pool };
     // draw n values from a small sub-pool (duplicates, clustered) or the whole pool
     let sub: Vec<BigInt> = if r.chance(1, 3) { (0..1 + r.below(4)).map(|_| r.pick(&pool).clone()).collect() } else { pool };
     (0..n).map(|_| r.pick(&sub).clone()).collect()
@@ -858,7 +917,7 @@ fn gen_dba(prec: usize, n: usize, r: &mut Rng) -> Vec<Vec<u8>> {
     // Excluded input class: BYTE_ARRAY DECIMAL chunks whose values are encoded with different byte lengths;
     // the generator sign-extends every value of a chunk to one common length.
     if findings_mode() { return minimal; }
-    let width = minimal.iter().map(|b| b.len()).max().unwrap_or(1) + r.below(3);
+    let width = (minimal.iter().map(|b| b.len()).max().unwrap_or(1) + r.below(3)).min(16); // the arrow reader sign-extends into 16 bytes
     minimal.into_iter().map(|b| { let fill = if b[0] & 0x80 != 0 { 0xFFu8 } else { 0 }; let mut v = vec![fill; width - b.len()]; v.extend(b); v }).collect()
 }
 
@@ -905,10 +964,11 @@ fn gen_valid(n: usize, r: &mut Rng) -> Vec<bool> {
 
 fn gen_input(r: &mut Rng, kind: usize, nmax: usize) -> Input {
     let n = match r.below(8) { 0 => r.below(3), 1 => 1 + r.below(8), _ => 1 + r.below(nmax) };
-    let variant = match kind { K_I32 => r.below(4), K_I64 => r.below(2), K_U32 => r.below(3), K_UTF8 | K_BIN => r.below(3), K_DF => if r.chance(1, 4) { 1 } else { 0 }, _ => 0 };
+    let variant = match kind { K_I32 => r.below(4), K_I64 => r.below(2), K_U32 => r.below(3), K_UTF8 | K_BIN => r.below(4), K_D32 => r.below(3), K_D64 => r.below(2),
+        K_DF => if r.chance(1, 4) { 1 } else { 0 }, _ => 0 };
     let prec = match kind {
         K_D32 => 2 + r.below(8),
-        K_D64 => if r.chance(1, 8) { 1 } else { 10 + r.below(9) },
+        K_D64 => if variant == 0 && r.chance(1, 8) { 1 } else { 10 + r.below(9) },
         K_DF => if variant == 1 { 19 + r.below(58) } else { 19 + r.below(20) },
         _ => 0,
     };
@@ -978,9 +1038,14 @@ fn emit_file(inp: &mut Input, emit: &mut dyn FnMut(Case), tag: String) {
     if let Some(obs) = observe_file(inp) {
         let mut args = inp.to_groups();
         args.extend(obs);
-        emit(Case::new("c07.file", args, &["c07.file.spec", "c07.file"], tag));
-    } else if std::env::var("C07_DEBUG").is_ok() {
-        eprintln!("no observation: {:?}", inp);
+        emit(Case::new("c07.file", args, &["c07.file.spec", "c07.file"], tag.clone()));
+    } else {
+        if std::env::var("C07_DEBUG").is_ok() { eprintln!("no observation: {:?}", inp); }
+        // the writer produced a file with rows but it cannot be read back / has no single row group:
+        // reported as a failing case (the spec op does not answer with an error)
+        if inp.nrows() > 0 && written(inp).is_some() {
+            emit(Case::new("c07.file", inp.to_groups(), &["c07.file.spec"], format!("unreadable {tag}")));
+        }
     }
 }
 
@@ -1016,6 +1081,73 @@ fn gen_sbbf(r: &mut Rng, emit: &mut dyn FnMut(Case)) {
     emit(Case::new("c07.sbbf_check", args, &["c07.sbbf_check.spec"], format!("chk {tag}")));
 }
 
+/// One value per page (row limit 1, batch size 1): the column index then holds truncate_min_value /
+/// truncate_max_value of every single value, the chunk statistics those of the extrema.
+fn emit_trunc_file(r: &mut Rng, kind: usize, tl: usize, rows: Vec<Vec<u8>>, emit: &mut dyn FnMut(Case), tag: &str) {
+    let n = rows.len();
+    let mut inp = Input { kind, flen: if kind == K_FSB { rows[0].len() } else { 0 }, prec: 0, variant: r.below(3), level: 2,
+        tl_stats: Some(tl), tl_index: Some(tl), row_limit: 1, batch_size: 1, v2: r.bool(), dict: r.bool(), bo_mode: 1, pre: 0,
+        nbatches: 1, bloom: false, ndv: 0, fpp_code: 0, hdr_stats: r.chance(1, 4), valid: vec![true; n], nums: vec![], blobs: rows };
+    if kind == K_FSB { inp.variant = 0; }
+    emit_file(&mut inp, emit, format!("trunc k{kind} tl{tl} {tag}"));
+}
+
+const TRUNC_CHARS: [u32; 12] = [0x61, 0x62, 0x7F, 0x80, 0x7FF, 0x800, 0xD7FF, 0xE000, 0xFFFF, 0x10000, 0x10FFFE, 0x10FFFF];
+const TRUNC_BYTES: [u8; 6] = [0x00, 0x61, 0x80, 0xC3, 0xFE, 0xFF];
+
+fn all_strings(max_chars: usize) -> Vec<Vec<u8>> {
+    let mut out: Vec<Vec<u8>> = vec![];
+    let mut level: Vec<String> = vec![String::new()];
+    for _ in 0..max_chars {
+        let mut next = vec![];
+        for p in &level { for c in TRUNC_CHARS { let mut q = p.clone(); q.push(char::from_u32(c).unwrap()); next.push(q); } }
+        out.extend(next.iter().map(|q| q.as_bytes().to_vec()));
+        level = next;
+    }
+    out
+}
+fn all_blobs(max_len: usize) -> Vec<Vec<u8>> {
+    let mut out: Vec<Vec<u8>> = vec![];
+    let mut level: Vec<Vec<u8>> = vec![vec![]];
+    for _ in 0..max_len {
+        let mut next = vec![];
+        for p in &level { for b in TRUNC_BYTES { let mut q = p.clone(); q.push(b); next.push(q); } }
+        out.extend(next.iter().cloned());
+        level = next;
+    }
+    out
+}
+
+fn gen_trunc(tier: &str, r: &mut Rng, emit: &mut dyn FnMut(Case)) {
+    if tier == "thorough" {
+        // exhaustive: every string of <= 3 code points over the 12-character alphabet spanning the 1-4 byte
+        // encodings, for every truncation length 1..=12; every byte string of <= 4 bytes over 6 byte values, 1..=4
+        let strs = all_strings(3);
+        for tl in 1..=12usize {
+            let long: Vec<Vec<u8>> = strs.iter().filter(|s| s.len() > tl).cloned().collect();
+            for chunk in long.chunks(64) { emit_trunc_file(r, K_UTF8, tl, chunk.to_vec(), emit, "exh"); }
+        }
+        let blobs = all_blobs(4);
+        for tl in 1..=3usize {
+            let long: Vec<Vec<u8>> = blobs.iter().filter(|s| s.len() > tl).cloned().collect();
+            for chunk in long.chunks(64) { emit_trunc_file(r, K_BIN, tl, chunk.to_vec(), emit, "exh"); }
+        }
+    }
+    let nfiles = if tier == "thorough" { 600 } else { 120 };
+    for i in 0..nfiles {
+        let kind = [K_UTF8, K_UTF8, K_BIN, K_FSB][i % 4];
+        let tl = 1 + r.below(9);
+        let n = 8 + r.below(40);
+        let flen = tl + 1 + r.below(4);
+        let rows: Vec<Vec<u8>> = (0..n).map(|_| match kind {
+            K_UTF8 => { let nc = 1 + r.below(5); let mut s = String::new(); for _ in 0..nc { s.push(char::from_u32(if r.chance(3, 4) { *r.pick(&TRUNC_CHARS) } else { *r.pick(&CHARS) }).unwrap()); } s.into_bytes() }
+            K_BIN => { let l = r.below(tl + 4); (0..l).map(|_| if r.chance(3, 4) { *r.pick(&TRUNC_BYTES) } else { r.next() as u8 }).collect() }
+            _ => (0..flen).map(|_| if r.chance(3, 4) { *r.pick(&TRUNC_BYTES) } else { r.next() as u8 }).collect(),
+        }).collect();
+        emit_trunc_file(r, kind, tl, rows, emit, "rnd");
+    }
+}
+
 pub fn generate(tier: &str, r: &mut Rng, emit: &mut dyn FnMut(Case)) {
     if std::env::var("C07_DEBUG").is_ok() {
         std::panic::set_hook(Box::new(|i| { eprintln!("panic: {i}"); }));
@@ -1028,7 +1160,18 @@ pub fn generate(tier: &str, r: &mut Rng, emit: &mut dyn FnMut(Case)) {
             valid: vec![true; n], nums: vec![], blobs: rows };
         emit_file(&mut inp, emit, format!("hand k{kind} tl{tl} n{n}"));
     }
-    let nfiles = if tier == "thorough" { 6000 } else { 600 };
+    if findings_mode() {
+        // minimal witnesses of the two BYTE_ARRAY decimal findings (excluded from the normal generators)
+        for (tl, rows) in [(None, vec![vec![0x7Fu8, 0xFF], vec![0x00, 0x80, 0x00]]), (Some(1usize), vec![vec![0x01u8, 0x00]])] {
+            let n = rows.len();
+            let mut inp = Input { kind: K_DBA, flen: 0, prec: 10, variant: 0, level: 2, tl_stats: tl, tl_index: tl, row_limit: 20, batch_size: 8,
+                v2: false, dict: false, bo_mode: 1, pre: 0, nbatches: 1, bloom: false, ndv: 0, fpp_code: 0, hdr_stats: false,
+                valid: vec![true; n], nums: vec![], blobs: rows };
+            emit_file(&mut inp, emit, "finding dba".to_string());
+        }
+    }
+    gen_trunc(tier, r, emit);
+    let nfiles = if tier == "thorough" { 24000 } else { 2400 };
     for i in 0..nfiles {
         let kind = i % 16;
         let mut inp = gen_input(r, kind, 120);
@@ -1036,6 +1179,7 @@ pub fn generate(tier: &str, r: &mut Rng, emit: &mut dyn FnMut(Case)) {
             inp.tl_index.map(|x| x.min(9)).unwrap_or(99), (inp.nrows() + 19) / 20, inp.pre.min(1));
         emit_file(&mut inp, emit, tag.clone());
         emit_conv(&mut inp, emit, format!("conv {tag}"));
+        if i % 2 == 1 { continue; }
         // the same kind of input with a bloom filter
         let mut inp = gen_input(r, kind, 300);
         inp.bloom = true;
@@ -1043,6 +1187,6 @@ pub fn generate(tier: &str, r: &mut Rng, emit: &mut dyn FnMut(Case)) {
         inp.fpp_code = r.below(FPPS.len());
         let btag = format!("bloom k{} ndv{} f{} n{}", kind, inp.ndv, inp.fpp_code, (inp.nrows() + 49) / 50);
         emit_bloom(&mut inp, emit, btag);
-        if i % 3 == 0 { gen_sbbf(r, emit); }
+        if i % 8 == 0 { gen_sbbf(r, emit); }
     }
 }
